@@ -378,15 +378,43 @@ def shared_class_container(ctx, cls, name):
             if isinstance(n, ast.Assign) and len(n.targets) == 1 and isinstance(n.targets[0], ast.Attribute) and n.targets[0].attr == name \
                     and isinstance(n.targets[0].value, ast.Name) and n.targets[0].value.id == m.self_name and is_container_expr(ctx, n.value, m.module):
                 fresh.add(m.cls)
+    # methods that hand the container out (return self.<alias>, or a local bound to it): self.y = self.method() aliases it too
+    changed = True
+    handing = set()
+    while changed:
+        changed = False
+        for m in methods:
+            if not m.self_name or m in handing:
+                continue
+            local_alias = {n.targets[0].id for n in own_nodes(m.node) if isinstance(n, ast.Assign) and len(n.targets) == 1 and isinstance(n.targets[0], ast.Name)
+                           and isinstance(n.value, ast.Attribute) and n.value.attr in aliases and isinstance(n.value.value, ast.Name) and n.value.value.id == m.self_name}
+            for r in own_nodes(m.node):
+                if isinstance(r, ast.Return) and r.value is not None and ((isinstance(r.value, ast.Name) and r.value.id in local_alias) or
+                                                                        (isinstance(r.value, ast.Attribute) and r.value.attr in aliases and isinstance(r.value.value, ast.Name) and r.value.value.id == m.self_name)):
+                    handing.add(m)
+                    changed = True
+        for m in methods:
+            if not m.self_name:
+                continue
+            for n in own_nodes(m.node):
+                if isinstance(n, ast.Assign) and len(n.targets) == 1 and isinstance(n.targets[0], ast.Attribute) and isinstance(n.targets[0].value, ast.Name) \
+                        and n.targets[0].value.id == m.self_name and n.targets[0].attr not in aliases and isinstance(n.value, ast.Call) \
+                        and any(t in handing for t in C.targets_of(ctx, m, n.value)):
+                    aliases.add(n.targets[0].attr)
+                    changed = True
     writes, reads = [], []
     for m in methods:
         if not m.self_name:
             continue
         g = None
+        local_alias = {n.targets[0].id for n in own_nodes(m.node) if isinstance(n, ast.Assign) and len(n.targets) == 1 and isinstance(n.targets[0], ast.Name)
+                       and isinstance(n.value, ast.Attribute) and n.value.attr in aliases and isinstance(n.value.value, ast.Name) and n.value.value.id == m.self_name}
         for n in own_nodes(m.node):
-            if not (isinstance(n, ast.Attribute) and n.attr in aliases and isinstance(n.value, ast.Name) and n.value.id == m.self_name):
+            if isinstance(n, ast.Name) and n.id in local_alias and isinstance(n.ctx, ast.Load):
+                pass        # a local bound to the shared container: judged like self.<alias>
+            elif not (isinstance(n, ast.Attribute) and n.attr in aliases and isinstance(n.value, ast.Name) and n.value.id == m.self_name):
                 continue
-            if n.attr == name and m.cls in fresh:
+            if isinstance(n, ast.Attribute) and n.attr == name and m.cls in fresh:
                 continue
             par = prog.parent.get(n)
             if isinstance(n.ctx, ast.Store):
@@ -414,7 +442,10 @@ def shared_class_container(ctx, cls, name):
                     writes.append((m, n, k, uncond))
             else:
                 # an alias assignment is not a read of the content
-                if isinstance(par, ast.Assign) and par.value is n and isinstance(par.targets[0], ast.Attribute) and par.targets[0].attr in aliases:
+                if isinstance(par, ast.Assign) and par.value is n and ((isinstance(par.targets[0], ast.Attribute) and par.targets[0].attr in aliases)
+                                                                       or (isinstance(par.targets[0], ast.Name) and par.targets[0].id in local_alias)):
+                    continue
+                if isinstance(par, ast.Return):
                     continue
                 reads.append((m, n))
     if not writes:
@@ -517,6 +548,27 @@ def class_slot(ctx, attr, writes):
         elif not (isinstance(v, ast.Constant) and v.value is None):
             internal.append((f, n, v, f))
     label = "class attribute slot .%s (%s)" % (attr, ", ".join(sorted({c.name for _, _, cl in writes for c in cl})))
+    # a value (not a callable) parked on the class by an operation and read back into results by later ones
+    for f, n, cl in writes:
+        v = n.value
+        if isinstance(v, ast.Constant) or (isinstance(v, ast.Name) and v.id in f.params):
+            continue
+        depends = sorted({norm(x) for x in ast.walk(v) if isinstance(x, ast.Attribute) and isinstance(x.value, ast.Name) and f.self_name and x.value.id == f.self_name}
+                         | {x.id for x in ast.walk(v) if isinstance(x, ast.Name) and x.id in f.params and x.id != f.self_name})
+        # locals of the writer count through their definitions
+        for x in [y for y in ast.walk(v) if isinstance(y, ast.Name)]:
+            for w_, p_ in ctx.res.bindings(f).get(x.id, []):
+                if w_ == "value":
+                    depends += sorted({norm(z) for z in ast.walk(p_) if isinstance(z, ast.Attribute) and isinstance(z.value, ast.Name) and f.self_name and z.value.id == f.self_name})
+        served = [(g_, l_) for g_, l_ in loads if not isinstance(prog.parent.get(l_), (ast.BoolOp, ast.If, ast.UnaryOp, ast.Compare))]
+        if depends and served and not (isinstance(v, ast.Attribute) and isinstance(v.value, ast.Name) and v.value.id == f.self_name and f.name == "__init__"):
+            g = C.cfg_of(f)
+            wn = C.stmt_node(ctx, f, n)
+            uncond = f.name == "__init__" and wn is not None and g.dominates(wn, g.exit)
+            if not uncond:
+                ctx.violated("C09.2", f, "%s is filled by one operation from its own state (%s) and handed out afterwards (%s in %s): the class object lives for the whole process, so a later operation "
+                             "with other parameters is served the earlier one's value" % (label, ", ".join(depends[:3]), norm(prog.enclosing_stmt(served[0][1]))[:50], served[0][0].qualname), n)
+                return
     if used_results:
         f, c = used_results[0]
         ctx.violated("C09.2", f, "%s: the value returned by the callable stored there is used (%s), so what an earlier operation registered changes this operation's behaviour" % (label, norm(c)[:60]), c)
